@@ -20,10 +20,15 @@ import (
 // C16 writes `c16` lines (the built script only).
 
 func init() {
-	props["C04"] = func(g *Gen) { genC04(g, c04Case) }
+	props["C04"] = func(g *Gen) {
+		genC04(g, c04Case)
+		genC04b(g)
+	}
 	props["C16"] = func(g *Gen) { genC04(g, c16Case) }
 	replays["C04"] = func(g *Gen, f []string) {
-		if len(f) >= 2 {
+		if len(f) >= 2 && f[0] == "c04b" {
+			c04bCase(g, f[1])
+		} else if len(f) >= 2 {
 			c04Case(g, decOps(f[1]))
 		}
 	}
@@ -114,6 +119,91 @@ func scriptDump(c *ast.Chain) string {
 		exprDump(&b, s.Expr)
 	}
 	return b.String()
+}
+
+// irParse reads an IR dump back into a program with a fresh operand object per occurrence.
+func irParse(s string) *ir.Program {
+	p := &ir.Program{}
+	if s == "-" || s == "" {
+		return p
+	}
+	for _, part := range strings.Split(s, ";") {
+		var k, x, y int
+		switch {
+		case scan(part, "%d:A(%d,%d)", &k, &x, &y):
+			p.AddInstruction(&ir.Instruction{Output: ir.Index(k), Op: ir.Add{X: ir.Index(x), Y: ir.Index(y)}})
+		case scan(part, "%d:D(%d)", &k, &x):
+			p.AddInstruction(&ir.Instruction{Output: ir.Index(k), Op: ir.Double{X: ir.Index(x)}})
+		case scan(part, "%d:S(%d,%d)", &k, &x, &y):
+			p.AddInstruction(&ir.Instruction{Output: ir.Index(k), Op: ir.Shift{X: ir.Index(x), S: uint(y)}})
+		}
+	}
+	return p
+}
+
+func scan(s, format string, args ...interface{}) bool {
+	n, err := fmt.Sscanf(s, format, args...)
+	return err == nil && n == len(args)
+}
+
+// c04bCase runs Build directly on an unnamed IR program (not necessarily one Decompile would
+// produce): correspondence for the builder model on general IR.
+func c04bCase(g *Gen, dump string) {
+	bld := "panic"
+	safe(func() {
+		ch, err := acc.Build(irParse(dump))
+		if err != nil {
+			bld = "err"
+			return
+		}
+		bld = scriptDump(ch)
+	})
+	g.Line("c04b", dump, bld)
+}
+
+// c04IR turns a program into an IR dump by an arbitrary grouping: runs of doublings become shifts
+// whether or not their intermediates are read elsewhere (dangling inputs), a doubling may be written
+// as an addition of an element to itself, and with `faults` a shift by zero or a wrong output index
+// is injected now and then.
+func c04IR(g *Gen, p addchain.Program, faults bool) string {
+	parts := []string{}
+	for i := 0; i < len(p); i++ {
+		op := p[i]
+		if op.I != op.J {
+			parts = append(parts, fmt.Sprintf("%d:A(%d,%d)", i+1, op.I, op.J))
+		} else {
+			j := i + 1
+			if g.R.Intn(3) != 0 {
+				for ; j < len(p) && p[j].I == j && p[j].J == j && g.R.Intn(6) != 0; j++ {
+				}
+			}
+			switch s := j - i; {
+			case s > 1:
+				parts = append(parts, fmt.Sprintf("%d:S(%d,%d)", j, op.I, s))
+				i = j - 1
+			case g.R.Intn(4) == 0:
+				parts = append(parts, fmt.Sprintf("%d:A(%d,%d)", i+1, op.I, op.I))
+			case g.R.Intn(5) == 0:
+				parts = append(parts, fmt.Sprintf("%d:S(%d,1)", i+1, op.I))
+			default:
+				parts = append(parts, fmt.Sprintf("%d:D(%d)", i+1, op.I))
+			}
+		}
+		if faults {
+			switch g.R.Intn(12) {
+			case 0: // shift by zero of the element just produced (compiles; duplicate output index)
+				parts = append(parts, fmt.Sprintf("%d:S(%d,0)", i+1, i+1))
+			case 1: // shift by zero of another element (output-index cross-check fails)
+				parts = append(parts, fmt.Sprintf("%d:S(%d,0)", i+1, g.R.Intn(i+2)))
+			case 2: // wrong output index
+				parts = append(parts, fmt.Sprintf("%d:D(%d)", i+1+g.R.Intn(3), g.R.Intn(i+2)))
+			}
+		}
+	}
+	if len(parts) == 0 {
+		return "-"
+	}
+	return strings.Join(parts, ";")
 }
 
 func cloneOps(p addchain.Program) addchain.Program { return append(addchain.Program{}, p...) }
@@ -492,5 +582,33 @@ func genC04(g *Gen, emit func(g *Gen, p addchain.Program)) {
 		p := c04Random(g, 20+g.R.Intn(181))
 		emit(g, p)
 		g.Count("random-long")
+	}
+}
+
+// genC04b: Build on general IR programs (correspondence only; the property quantifies over
+// chain programs, whose IR is the output of Decompile).
+func genC04b(g *Gen) {
+	for n := 1; n <= g.pick(4, 5); n++ {
+		c04Enum(g, n, 0, func(p addchain.Program) {
+			for r := 0; r < 3; r++ {
+				c04bCase(g, c04IR(g, p, r == 2))
+				g.Count("ir-small")
+			}
+		})
+	}
+	for i := 0; i < g.pick(1500, 8000); i++ {
+		var p addchain.Program
+		if g.R.Intn(4) == 0 {
+			p = c04Runs(g, 4+g.R.Intn(10))
+		} else {
+			p = c04Random(g, 5+g.R.Intn(80))
+		}
+		c04bCase(g, c04IR(g, p, g.R.Intn(3) == 0))
+		g.Count("ir-random")
+	}
+	for _, d := range []string{"9:S(0,9);9:S(9,0);10:A(9,9)", "1:D(0);1:S(1,0);2:D(1)", "1:D(0);1:S(1,0)",
+		"1:A(0,0);2:A(1,1)", "3:S(0,3);4:A(1,3)", "0:S(0,0)", "0:S(0,0);1:D(0)", "2:D(0)", "1:D(1)"} {
+		c04bCase(g, d)
+		g.Count("ir-fixed")
 	}
 }
